@@ -124,7 +124,7 @@ CORPUS = [
     {"u": "http://1.2.3.4", "vs": ["http://a.1.2.3.4", "http://1.2.3.4/x", "http://1.2.3.4:80"], "sa": False},
     {"u": "http://localhost", "vs": ["http://a.localhost", "http://localhost/x", "http://LOCALHOST/x"], "sa": False},
     {"u": "http://[::1]", "vs": ["http://[::1]/x", "http://[::1]:80/x", "http://a.[::1]"], "sa": False},
-    # FX-C12-BRACKETSUFFIX: a bracketed literal whose text ends with a public suffix is one stem, suffix-aware or not
+    # FX-C12-df640b6: a bracketed literal whose text ends with a public suffix is one stem, suffix-aware or not
     {"u": "http://[v1.a.com]", "vs": ["http://[v1.a.com]/x", "http://[v1.a.com]:80/x", "http://[v1.A.com]/x", "http://a.com/x", "http://[::1%a.co.uk]/x"], "sa": True},
     {"u": "http://[::1%a.co.uk]", "vs": ["http://[::1%a.co.uk]/x?q#f", "http://[::1%A.CO.UK]/x", "http://co.uk/x", "http://[::1%a.co.uk]"], "sa": True},
     {"u": "http://[::1%a.co.uk]", "vs": ["http://[::1%a.co.uk]/x?q#f", "http://[::1%A.CO.UK]/x", "http://co.uk/x", "http://[::1%a.co.uk]"], "sa": False},
